@@ -68,6 +68,110 @@ def plain_names(module):
     return all(irser.atom(n) == n and "!" not in n for n in all_names(module))
 
 
+def identity_walk(m):
+    """Second, independent structural view: every operand by the IDENTITY of the definition it refers to
+    (module-level object of this module / parameter index / (block index, instruction index) of the same
+    function), every block reference by block index, every type in full (blob size AND alignment)."""
+    glob = {}
+    for e in m.externals:
+        glob[id(e)] = ("external", e.name)
+    for v in m.variables:
+        glob[id(v)] = ("variable", v.name)
+    for f in m.functions:
+        glob[id(f)] = ("subroutine", f.name)
+    T = lambda t: f"{type(t).__name__}:{t}"  # noqa: E731
+    out = [("module", m.name)]
+    for e in m.externals:
+        out.append(("external", e.name, type(e).__name__, tuple(T(t) for t in getattr(e, "argument_types", [])),
+                    T(e.return_ty) if hasattr(e, "return_ty") else None))
+    for v in m.variables:
+        out.append(("variable", v.name, v.binding, v.amount, v.alignment,
+                    None if v.value is None else tuple(p if isinstance(p, bytes) else ("address", p[1]) for p in v.value)))
+    for f in m.functions:
+        loc = {}
+        for pi, p in enumerate(f.arguments):
+            loc[id(p)] = ("param", pi)
+        bidx = {id(b): bi for bi, b in enumerate(f.blocks)}
+        for bi, b in enumerate(f.blocks):
+            for ii, i in enumerate(b.instructions):
+                if isinstance(i, ir.Value):
+                    loc[id(i)] = ("ins", bi, ii)
+
+        def ref(v):
+            return loc.get(id(v)) or glob.get(id(v)) or ("NOT-IN-SCOPE", type(v).__name__, getattr(v, "name", "?"))
+
+        def bref(b):
+            return bidx.get(id(b), ("NOT-IN-FUNCTION", getattr(b, "name", "?")))
+
+        out.append(("subroutine", f.name, f.binding, type(f).__name__,
+                    T(f.return_ty) if isinstance(f, ir.Function) else None,
+                    tuple((p.name, T(p.ty)) for p in f.arguments),
+                    bref(f.entry) if f.entry is not None else None))
+        for bi, b in enumerate(f.blocks):
+            out.append(("block", f.name, bi, b.name))
+            for ii, i in enumerate(b.instructions):
+                k = type(i).__name__
+                nm = (i.name, T(i.ty)) if isinstance(i, ir.Value) else None
+                if isinstance(i, ir.Phi):
+                    ops = tuple(sorted(((bl.name, v.name), bref(bl), ref(v)) for bl, v in i.inputs.items()))
+                elif isinstance(i, (ir.FunctionCall, ir.ProcedureCall)):
+                    ops = (ref(i.callee),) + tuple(ref(a) for a in i.arguments)
+                elif isinstance(i, ir.Binop):
+                    ops = (i.operation, ref(i.a), ref(i.b))
+                elif isinstance(i, ir.Unop):
+                    ops = (i.operation, ref(i.a))
+                elif isinstance(i, ir.Cast):
+                    ops = (ref(i.src),)
+                elif isinstance(i, ir.AddressOf):
+                    ops = (ref(i.src),)
+                elif isinstance(i, ir.Load):
+                    ops = (ref(i.address), bool(i.volatile))
+                elif isinstance(i, ir.Store):
+                    ops = (ref(i.value), T(i.value.ty), ref(i.address), bool(i.volatile))
+                elif isinstance(i, ir.CopyBlob):
+                    ops = (ref(i.dst), ref(i.src), i.amount)
+                elif isinstance(i, ir.CJump):
+                    ops = (ref(i.a), i.cond, ref(i.b), bref(i.lab_yes), bref(i.lab_no))
+                elif isinstance(i, ir.Jump):
+                    ops = (bref(i.target),)
+                elif isinstance(i, ir.Return):
+                    ops = (ref(i.result),)
+                elif isinstance(i, ir.Const):
+                    ops = (("f", fbits(i.value)) if isinstance(i.value, float) else ("i", int(i.value)),)
+                elif isinstance(i, ir.LiteralData):
+                    ops = (bytes(i.data),)
+                elif isinstance(i, ir.Alloc):
+                    ops = (i.amount, i.alignment)
+                elif isinstance(i, ir.InlineAsm):
+                    ops = (str(i.template), tuple(ref(v) for v in i.input_values), tuple(ref(v) for v in i.output_values),
+                           tuple(i.clobbers or ()))
+                else:
+                    ops = ()
+                out.append(("ins", f.name, bi, ii, k, nm, ops))
+    return out
+
+
+def capture_in_same_function(m):
+    """some function uses a module-level value whose name is also the name of a value of THAT function"""
+    for f in m.functions:
+        local = {p.name for p in f.arguments} | {i.name for b in f.blocks for i in b.instructions if isinstance(i, ir.Value)}
+        for b in f.blocks:
+            for i in b.instructions:
+                for u in i.uses:
+                    if isinstance(u, ir.GlobalValue) and u.name in local:
+                        return True
+    return False
+
+
+def ppci_verifies(m):
+    from ppci.irutils import verify_module
+    try:
+        verify_module(m)
+        return True
+    except Exception:  # noqa
+        return False
+
+
 # ---------------------------------------------------------------------------------------------
 # hand-built modules
 
@@ -362,6 +466,125 @@ def m_rol_keyword():
     return m
 
 
+# --- name collisions of every kind, across several functions --------------------------------------------------
+
+def m_collide(kind):
+    """`first` owns a parameter / value / block named like a module-level symbol (or like something in another
+    function) and does not use that symbol itself; `later` uses the symbol.  ppci must keep them apart."""
+    m = ir.Module("collide")
+    ext = ir.ExternalFunction("cursor_x", [ir.i32], ir.i32)
+    m.add_external(ext)
+    gv = ir.Variable("cursor", ir.Binding.GLOBAL, 8, 8, value=b"\x01\x00\x00\x00\x02\x00\x00\x00")
+    gw = ir.Variable("count", ir.Binding.LOCAL, 4, 4)
+    m.add_variable(gv)
+    m.add_variable(gw)
+    helper, (ha,) = _fn(m, "helper", ir.i32, [("a", ir.i32)], ir.Binding.LOCAL)
+    (hb,) = _blocks(helper, "entry")
+    _add(hb, ir.Return(ha))
+    # --- first: owns the colliding name, never uses the module-level symbol
+    pname, ptype = {"param-var-ptr": ("cursor", ir.ptr), "param-var-int": ("cursor", ir.i32),
+                    "param-func": ("helper", ir.ptr), "param-ext": ("cursor_x", ir.i32),
+                    "param-later-func": ("later", ir.i32)}.get(kind, ("p0", ir.i32))
+    first, (fp, fn_) = _fn(m, "first", ir.i32, [(pname, ptype), ("n", ir.i32)])
+    bname = {"block-var": "cursor", "block-func": "helper", "block-param": "n", "block-later-value": "shared"}.get(kind, "entry")
+    (fb,) = _blocks(first, bname)
+    vname = {"value-var": "count", "value-func": "helper", "value-ext": "cursor_x", "value-later-func": "later",
+             "value-other-func-value": "shared", "value-other-func-param": "d"}.get(kind, "t")
+    t = _add(fb, ir.Binop(fn_, "+", fn_, vname, ir.i32))
+    u = _add(fb, ir.Binop(t, "*", fn_, "u", ir.i32))
+    _add(fb, ir.Return(u))
+    # --- later: uses the module-level symbols
+    later, (ld,) = _fn(m, "later", ir.i32, [("d", ir.i32)])
+    (lb,) = _blocks(later, "entry")
+    a = _add(lb, ir.Load(gv, "v0", ir.i32))
+    b = _add(lb, ir.Load(gw, "v1", ir.i32))
+    c = _add(lb, ir.FunctionCall(helper, [a], "v2", ir.i32))
+    e = _add(lb, ir.FunctionCall(ext, [b], "v3", ir.i32))
+    r = _add(lb, ir.FunctionCall(first, [gv if ptype is ir.ptr else c, e] , "v4", ir.i32))
+    s_ = _add(lb, ir.Binop(r, "+", ld, "shared", ir.i32))
+    _add(lb, ir.Store(s_, gw))
+    _add(lb, ir.Return(s_))
+    return m
+
+
+COLLISIONS = ["param-var-ptr", "param-var-int", "param-func", "param-ext", "param-later-func", "block-var",
+              "block-func", "block-param", "block-later-value", "value-var", "value-func", "value-ext",
+              "value-later-func", "value-other-func-value", "value-other-func-param"]
+
+
+def m_forward_capture():
+    """`early` calls `target`, which is defined AFTER `middle`; `middle` has a value named `target`:
+    the readers replace the placeholder by that value (open finding, other direction of capture)."""
+    m = ir.Module("fwdcapture")
+    early, (p,) = _fn(m, "early", ir.i32, [("p", ir.i32)])
+    middle, (q,) = _fn(m, "middle", ir.i32, [("q", ir.i32)])
+    target, (r,) = _fn(m, "target", ir.i32, [("r", ir.i32)], ir.Binding.LOCAL)
+    (eb,) = _blocks(early, "entry")
+    x = _add(eb, ir.FunctionCall(target, [p], "x", ir.i32))
+    _add(eb, ir.Return(x))
+    (mb,) = _blocks(middle, "entry")
+    t = _add(mb, ir.Binop(q, "+", q, "target", ir.i32))
+    _add(mb, ir.Return(t))
+    (tb,) = _blocks(target, "entry")
+    _add(tb, ir.Return(r))
+    return m
+
+
+# --- several blob types: equal size / different alignment, equal alignment / different size ------------------
+
+BLOBS = [(8, 1), (8, 8), (8, 4), (4, 8), (16, 8), (16, 1), (1, 1)]
+
+
+def m_blob_types(with_undefined=False):
+    m = ir.Module("blobs")
+    B = [ir.BlobDataTyp(s, a) for s, a in BLOBS]
+    xs = ir.ExternalFunction("xsig", [B[1], B[0], B[3], ir.i8], B[2])
+    xp = ir.ExternalProcedure("xproc", [B[0], B[1], B[5], B[4], ir.f32])
+    m.add_external(xs)
+    m.add_external(xp)
+    m.add_variable(ir.Variable("ga", ir.Binding.GLOBAL, 8, 1, value=bytes(8)))
+    m.add_variable(ir.Variable("gb", ir.Binding.GLOBAL, 8, 8))
+    m.add_variable(ir.Variable("gc", ir.Binding.GLOBAL, 16, 8))
+    # every type as parameter and as return type; two functions per pair of clashing types
+    fa, (a0, a1, a2) = _fn(m, "fa", B[0], [("a", B[0]), ("b", B[1]), ("c", B[3])], ir.Binding.LOCAL)
+    (e,) = _blocks(fa, "entry")
+    _add(e, ir.Return(a0))
+    fb, (b0, b1, b2, b3) = _fn(m, "fb", B[1], [("a", B[1]), ("b", B[0]), ("c", B[4]), ("d", B[5])], ir.Binding.LOCAL)
+    (e,) = _blocks(fb, "entry")
+    _add(e, ir.Return(b0))
+    g, (p0, p1, p2, sel) = _fn(m, "g", B[2], [("x", B[0]), ("y", B[1]), ("z", B[3]), ("sel", ir.i32)])
+    e, l, r, j = _blocks(g, "entry", "l", "r", "j")
+    s0 = _add(e, ir.Alloc("s0", 8, 1))
+    s1 = _add(e, ir.Alloc("s1", 8, 8))
+    s2 = _add(e, ir.Alloc("s2", 16, 8))
+    s3 = _add(e, ir.Alloc("s3", 16, 1))
+    q0 = _add(e, ir.AddressOf(s0, "q0"))
+    q1 = _add(e, ir.AddressOf(s1, "q1"))
+    q2 = _add(e, ir.AddressOf(s2, "q2"))
+    q3 = _add(e, ir.AddressOf(s3, "q3"))
+    _add(e, ir.CopyBlob(q0, q1, 8), ir.CopyBlob(q2, q3, 16), ir.CopyBlob(q2, m.variables[2], 16))
+    _add(e, ir.Store(p0, q0), ir.Store(p1, q1))
+    c0 = _add(e, ir.FunctionCall(fa, [p0, p1, p2], "c0", B[0]))
+    c1 = _add(e, ir.FunctionCall(fb, [p1, p0, _add(e, ir.Cast(sel, "w", B[4])), _add(e, ir.Cast(sel, "w2", B[5]))], "c1", B[1]))
+    c2 = _add(e, ir.FunctionCall(xs, [p1, p0, p2, _add(e, ir.Cast(sel, "k", ir.i8))], "c2", B[2]))
+    _add(e, ir.ProcedureCall(xp, [c0, c1, _add(e, ir.Cast(sel, "w3", B[5])), _add(e, ir.Cast(sel, "w4", B[4])),
+                                  _add(e, ir.Cast(sel, "fl", ir.f32))]))
+    zero = _add(e, ir.Const(0, "zero", ir.i32))
+    _add(e, ir.CJump(sel, "==", zero, l, r))
+    _add(l, ir.Jump(j))
+    _add(r, ir.Jump(j))
+    pha = _add(j, ir.Phi("pha", B[0]))
+    phb = _add(j, ir.Phi("phb", B[1]))
+    pha.set_incoming(l, p0)
+    pha.set_incoming(r, c0)
+    phb.set_incoming(l, c1)
+    phb.set_incoming(r, p1)
+    if with_undefined:
+        _add(j, ir.Undefined("ua", B[0]), ir.Undefined("ub", B[1]), ir.Undefined("uc", B[6]))
+    _add(j, ir.Store(pha, q0), ir.Store(phb, q1), ir.Return(c2))
+    return m
+
+
 def corner_modules():
     """[(label, module, expected reason outside the text fragment | None, expected outside JSON fragment)]"""
     out = [("all-kinds", m_all_kinds(), None, None), ("constants", m_constants(), None, None),
@@ -371,6 +594,12 @@ def corner_modules():
     for t in (ir.i32, ir.i8, ir.u64, ir.ptr, ir.f64):
         for k in ("binop", "binop2", "unop", "cast", "cast-then-binop"):
             out.append((f"forward-{k}-{t}", m_forward(t, k), None, None))
+    out += [("blob-types", m_blob_types(), None, None), ("blob-types-undefined", m_blob_types(True), None, None)]
+    for k in COLLISIONS:
+        cap = k.startswith(("param-var", "param-func", "param-ext", "param-later", "value-var", "value-func",
+                            "value-ext", "value-later"))
+        out.append((f"collide-{k}", m_collide(k), "name-capture" if cap else None, "name-capture" if cap else None))
+    out.append(("finding-forward-capture", m_forward_capture(), "name-capture", "name-capture"))
     out += [("finding-inline-asm", m_inline_asm(), "inline-asm", "inline-asm"),
             ("finding-float-inf", m_float(float("inf")), "float-text", None),
             ("finding-float-neginf", m_float(float("-inf")), "float-text", None),
@@ -432,6 +661,29 @@ def decorate(rng, g, cover):
             rng.shuffle(rest)
             f.blocks[1:] = rest
             cover("shuffled-blocks")
+    # several blob types (equal size / different alignment ...) in signatures
+    if rng.random() < 0.6:
+        bl = [ir.BlobDataTyp(sz, al) for sz, al in rng.sample(BLOBS, 4)]
+        m.add_external(ir.ExternalProcedure("xblob", [bl[0], bl[1], rng.choice(irgen.INT_TYPES), bl[2]]))
+        m.add_external(ir.ExternalFunction("xblobf", [bl[3], bl[0]], bl[1]))
+        bf = ir.Function("blobfn", ir.Binding.LOCAL, bl[2])
+        m.add_function(bf)
+        ps = []
+        for k_, t_ in enumerate([bl[1], bl[2], bl[0], bl[3]]):
+            p_ = ir.Parameter(f"bp{k_}", t_)
+            bf.add_parameter(p_)
+            ps.append(p_)
+        bb = ir.Block("blobfn_entry")
+        bf.add_block(bb)
+        bf.entry = bb
+        xproc, xfunc = m.externals[-2], m.externals[-1]
+        one = ir.Const(1, "one", xproc.argument_types[2])
+        bb.add_instruction(one)
+        cl = ir.FunctionCall(xfunc, [ps[3], ps[2]], "cl", bl[1])
+        bb.add_instruction(cl)
+        bb.add_instruction(ir.ProcedureCall(xproc, [ps[2], cl, one, ps[1]]))
+        bb.add_instruction(ir.Return(ps[1]))
+        cover("blob-signatures")
     # initial values with address parts
     names = [v.name for v in m.variables] + [f.name for f in m.functions]
     for v in m.variables:
